@@ -24,7 +24,7 @@
      "nothing removed" result classes. *)
 From MptV Require Import Base.Mem C10.ConfigModel C10.ConfigSpec C10.PathProofs C10.PathAdd C10.PathBin C10.TreeQuery
   C10.TreeOps C10.TreeAssign C10.StoreRefine C10.ItemProofs C10.RootRefine C10.TreeView C10.ViewRefine C10.ApiRefine C10.AssignNone C10.MetaSet
-  C10.PathLast C16.Locate C10.LocateModel C10.LocateProofs.
+  C10.PathLast C16.Locate C10.LocateModel C10.LocateProofs C10.PathAddStr.
 
 (* ---- paths ---- *)
 
@@ -566,6 +566,48 @@ Example C10_path_last_del_example :
   end.
 Proof. vm_compute. repeat split; reflexivity. Qed.
 
+(* ---- mpt_path_add on a path that lies in the caller's string (no array) ---- *)
+
+(* ANY well-formed non-empty path without array (laid over a string by mpt_path_set; any offset), n bytes of
+   the caller's string behind it that hold no separator: mpt_path_add(path, n) succeeds, the elements afterwards
+   are the elements before ++ [those n bytes], the path owns its storage (HasArray - AS PATCHED by
+   docs/C10_path_add_hasarray.diff), nothing is behind it and a further element of m > 0 bytes is refused
+   with BadValue until post data is appended *)
+Theorem C10_path_add_from_string : forall p n,
+  pwf p -> parr p = false -> plen p <> 0 ->
+  poff p + plen p + n <= length (pbase p) ->
+  nosep (psep p) (slice (poff p + plen p) n (pbase p)) ->
+  exists p', path_add p n = Done p' /\ pwf p' /\ parr p' = true /\
+    elems p' = elems p ++ [slice (poff p + plen p) n (pbase p)] /\
+    poff p' = poff p /\ psep p' = psep p /\ passign p' = passign p /\
+    length (pbase p') = poff p' + plen p' /\
+    (forall m, 0 < m -> path_add p' m = Fail BadValue).
+Proof. exact path_add_from_string. Qed.
+
+(* "a.b=val": the path a.b, then v, a refused second add; after a del the element and its end byte are
+   behind the path again ("b=v" can be taken as one element); model and abstract path agree *)
+Example C10_path_add_from_string_example :
+  let bs := map N.of_nat in
+  let str := bs [97; 46; 98; 61; 118; 97; 108] in
+  let run := fix run (p : path) (a : apath) (ops : list pop) : list (pret * pret * cres (list (list byte)) * list (list byte) * bool) :=
+    match ops with
+    | [] => []
+    | o :: r => let '(p', x) := pstep p o in let '(a', y) := astep a o in (x, y, pwalk p', aelems a', parr p') :: run p' a' r
+    end in
+  let a0 := mkap [] [] false 46%N 61%N true None in
+  map (fun t => match t with (x, y, w, e, f) => (x, y, w, e, f) end)
+      (run (path_init 46%N 61%N) a0 [PSet (Some str) (Some 5); PAdd 1; PAdd 1; PAdd 0]) =
+    [(RNum 2, RNum 0, Done [bs [97]; bs [98]], [bs [97]; bs [98]], false);
+     (RNum 0, RNum 0, Done [bs [97]; bs [98]; bs [118]], [bs [97]; bs [98]; bs [118]], true);
+     (RErr BadValue, RErr BadValue, Done [bs [97]; bs [98]; bs [118]], [bs [97]; bs [98]; bs [118]], true);
+     (RNum 0, RNum 0, Done [bs [97]; bs [98]; bs [118]; []], [bs [97]; bs [98]; bs [118]; []], true)] /\
+  map (fun t => match t with (x, y, w, e, f) => (w, e, f) end)
+      (run (path_init 46%N 61%N) a0 [PSet (Some str) None; PDel; PAdd 3]) =
+    [(Done [bs [97]; bs [98]], [bs [97]; bs [98]], false);
+     (Done [bs [97]], [bs [97]], false);
+     (Done [bs [97]; bs [98; 61; 118]], [bs [97]; bs [98; 61; 118]], true)].
+Proof. vm_compute. split; reflexivity. Qed.
+
 Print Assumptions C10_path_elements.
 Print Assumptions C10_path_elements_string.
 Print Assumptions C10_string_key.
@@ -609,3 +651,4 @@ Print Assumptions C10_locate_default_key_is_name_equality.
 Print Assumptions C10_locate_skips_other_charsets.
 Print Assumptions C10_store_lookup_is_node_locate.
 Print Assumptions C10_node_query_is_locate_loop.
+Print Assumptions C10_path_add_from_string.
